@@ -33,6 +33,7 @@ fn parent(args: &Args) {
                "k": if thorough { 3 } else { 2 }, "capacities": if thorough { CAPS.to_vec() } else { vec![1, 8] },
                "count": enum_count(thorough)}),
     );
+    vlib::sanlayer::run_layers(ID, args, &mut out, &mut extra);
     run::finish(
         Finish {
             id: ID,
